@@ -183,6 +183,13 @@ def is_cnf(spec):
     return None
 
 
+def start_first(spec):
+    """The same grammar with the rules of the start variable moved to the front (the simple text format takes the
+    left-hand side of the first rule as start variable)."""
+    _, V, Sg, rules, S = spec
+    return ('cfg', V, Sg, tuple([r for r in rules if r[0] == S] + [r for r in rules if r[0] != S]), S)
+
+
 def normalise_simple(spec):
     """Is the grammar expressible in the simple text format (every used variable has a rule, start owns the first rule)?"""
     _, V, Sg, rules, S = spec
